@@ -49,11 +49,13 @@ StreamVals ==
             ELSE { F(t, <<id, Data(n)>>) : id \in B8, n \in Lens }
           : t \in StreamTypes }
 
+\* the code documents that a reason phrase is shorter than 16 KiB (its max_encoding_size counts a 2-byte length): precondition
+ReasonLens == { IF n >= 16384 THEN 16383 ELSE n : n \in Lens }
 CloseVals ==
     \* error kind x frame type (1-, 2- and 4-byte frame types) with a short reason; reason lengths on one base
     { F(28, <<V8(k), V8(ft), Ascii(5)>>) : k \in {0, 1, 10, 16, 256, 511}, ft \in {0, 6, 30, 49, EXT, EXT + 6} }
-    \cup { F(28, <<V8(10), V8(6), Ascii(n)>>) : n \in Lens }
-    \cup { F(29, <<c, Ascii(n)>>) : c \in B8, n \in Lens }
+    \cup { F(28, <<V8(10), V8(6), Ascii(n)>>) : n \in ReasonLens }
+    \cup { F(29, <<c, Ascii(n)>>) : c \in B8, n \in ReasonLens }
 
 AddrVals ==
     \* seq x tire full product on one address; NAT type and address one at a time
